@@ -455,6 +455,29 @@ func PeersListOrder(p *core.Program, r *core.Report, rule string) {
 			}
 			return st
 		}
+		// a helper of the module that is handed the list and the map of the workload peers adds them
+		if c, isCall := nd.(*ast.CallExpr); isCall && p.ByObj[core.Callee(info, c)] != nil {
+			hasList, hasMap := false, false
+			for _, a := range c.Args {
+				t := info.TypeOf(a)
+				if t == nil {
+					continue
+				}
+				if sl, isSl := t.Underlying().(*types.Slice); isSl && strings.HasSuffix(sl.Elem().String(), "eval.Peer") {
+					hasList = true
+				}
+				if mp, isMap := t.Underlying().(*types.Map); isMap && (core.TypeIs(mp.Elem(), core.PkgK8s, "WorkloadPeer") || strings.HasSuffix(mp.Elem().String(), "eval.Peer")) {
+					hasMap = true
+				}
+			}
+			if hasList && hasMap {
+				nW++
+				if st == 0 && early == "" {
+					early = p.Pos(c.Pos())
+				}
+			}
+			return st
+		}
 		as, ok := nd.(*ast.AssignStmt)
 		if !ok || len(as.Lhs) != 1 || len(as.Rhs) != 1 {
 			return st
